@@ -885,12 +885,133 @@ func subRace() mon.Sub {
 	}
 }
 
+// subRaceTCP: the unforced race over REAL sockets (loopback TCP, the operating system's deadlines, the library's
+// default net.Dialer when NetDial is nil): a listener per dial, the library's own Upgrader behind it, cancellation
+// after a PRNG-chosen spin. Observed at the PEER: after a failed Dial every connection the listener accepted sees its
+// end (EOF / reset) - the client closed it; after a successful Dial the greeting the server sends is readable (no
+// expired deadline was left behind). "Never saw the end" is decided by a 30 s watchdog on a microsecond-scale event.
+func subRaceTCP() mon.Sub {
+	return mon.Sub{
+		Name: "unforced-race-tcp",
+		N: func(t string) int {
+			if t == "thorough" {
+				return 4000
+			}
+			return 100
+		},
+		Do: func(c *mon.C) {
+			for k := 0; k < 10; k++ {
+				c.Count(1)
+				l, err := net.Listen("tcp", "127.0.0.1:0")
+				if err != nil {
+					c.Inconclusive("no loopback listener: " + err.Error())
+					return
+				}
+				type acc struct{ gone chan struct{} }
+				var mu sync.Mutex
+				var accepted []*acc
+				go func() {
+					for {
+						sc, err := l.Accept()
+						if err != nil {
+							return
+						}
+						a := &acc{gone: make(chan struct{})}
+						mu.Lock()
+						accepted = append(accepted, a)
+						mu.Unlock()
+						go func() {
+							defer close(a.gone)
+							defer sc.Close()
+							sc.SetDeadline(time.Now().Add(60 * time.Second))
+							if _, err := (ws.Upgrader{}).Upgrade(sc); err != nil {
+								// the handshake did not finish: wait for the client to go away
+								io.Copy(io.Discard, sc)
+								return
+							}
+							ws.WriteFrame(sc, ws.NewTextFrame([]byte("hello")))
+							io.Copy(io.Discard, sc)
+						}()
+					}
+				}()
+				ctx, cancel := context.WithCancel(context.Background())
+				spins := c.Rng.Intn(200000)
+				if k%4 == 0 {
+					spins = c.Rng.Intn(3000000)
+				}
+				go func() {
+					x := 0
+					for i := 0; i < spins; i++ {
+						x += i
+					}
+					_ = x
+					cancel()
+				}()
+				d := ws.Dialer{}
+				if k%3 == 0 {
+					d.Timeout = time.Hour
+				}
+				conn, br, _, derr := d.Dial(ctx, "ws://"+l.Addr().String()+"/race")
+				det := map[string]interface{}{"err": fmt.Sprint(derr), "cancel_after_spins": spins, "timeout_set": d.Timeout != 0}
+				if derr == nil {
+					raceTCP[0].Add(1)
+					// a live connection: the server's greeting arrives (a deadline left in the past would fail this at once)
+					conn.SetReadDeadline(time.Now().Add(30 * time.Second))
+					var r io.Reader = conn
+					if br != nil {
+						r = io.MultiReader(br, conn)
+					}
+					f, rerr := ws.ReadFrame(r)
+					if rerr != nil || string(f.Payload) != "hello" {
+						c.Fail("race-tcp/success-unusable", fmt.Sprintf("Dial returned nil but the server's greeting cannot be read from the connection: %v", rerr), det)
+						return
+					}
+					if br != nil {
+						ws.PutReader(br)
+					}
+					conn.Close()
+				} else {
+					if errors.Is(derr, context.Canceled) {
+						raceTCP[1].Add(1)
+					} else {
+						raceTCP[2].Add(1)
+					}
+					// (Dial hands back the connection object it closed together with the error: the statement asks
+					// for the Close, not for a nil value - my first version demanded nil here, a false alarm, §8)
+				}
+				cancel()
+				for i := 0; i < 20; i++ {
+					runtime.Gosched()
+				}
+				l.Close()
+				mu.Lock()
+				accs := append([]*acc(nil), accepted...)
+				mu.Unlock()
+				for _, a := range accs {
+					select {
+					case <-a.gone:
+					case <-time.After(30 * time.Second):
+						c.Fail("race-tcp/failure-not-closed", fmt.Sprintf("Dial returned (err=%v) but the peer still holds an open connection 30 s later: the client never closed it", derr), det)
+						return
+					}
+				}
+				if derr != nil && len(accs) > 0 {
+					raceTCP[3].Add(1)
+				}
+				c.Classf("race-tcp err=%v accepted=%d", derr != nil, len(accs))
+			}
+		},
+	}
+}
+
+var raceTCP [4]atomic.Int64 // success, ctx error, other error, failed after the peer had accepted the connection
+
 func TestMonitor(t *testing.T) {
 	spec := &mon.Spec{
 		Property: "C20",
 		Level:    "exploration",
 		Rule: "forced orders in VIRTUAL time (testing/synctest bubble, go1.26.8, -race): a fake net.Conn with real deadline semantics, gates that park any I/O operation before it starts or after it finished, a scripted peer (responsive in 1/2/5 chunks, slow = one chunk per virtual second, silent from chunk j, non-101) and a full event log. Scenario list (fixed, ~900): cancel forced before and after EVERY I/O operation of the handshake (operation count taken from a dry run; write buffers giving 1-3 writes; ws and wss with a TLSClient stub) for cancel and deadline contexts; cancel while blocked on a silent peer; context deadline and Dialer.Timeout shorter/longer than the other or alone for Background/TODO/WithValue/WithCancel/WithDeadline contexts against silent and slow peers; expiry in the dial phase; cancel after Dial returned; non-101 answers; no event at all; cancel at every I/O operation with the watcher goroutine parked INSIDE its SetDeadline call (a slow system call) while the handshake I/O runs to its end with a 101 or a non-101 answer: Dial must still be waiting for it. " +
-			"Oracle per scenario: nil error => live conn, deadlines cleared; error => obtained conn closed; no conn method after return (3 virtual hours later); context ended before the I/O finished (forced) => errors.Is(err, ctx.Err()); return no later than min(context end, start+Timeout) on silent/slow peers; no spurious failure; no goroutine left blocked in the bubble (synctest deadlock detector). Plus sequences under the real scheduler (dial-sequences: a Dial that was refused with a complete 400 while its context was being cancelled, then a Dial against a silent peer that only cancel / context deadline / Dialer.Timeout can end: it returns and closes its connection; a 60 s watchdog decides 'never returned'). Plus the unforced race under the real scheduler (cancel after a PRNG-chosen spin), invariants only, outcome histogram in the evidence. distinct = (context kind, event@place, peer, timeout, outcome).",
+			"Oracle per scenario: nil error => live conn, deadlines cleared; error => obtained conn closed; no conn method after return (3 virtual hours later); context ended before the I/O finished (forced) => errors.Is(err, ctx.Err()); return no later than min(context end, start+Timeout) on silent/slow peers; no spurious failure; no goroutine left blocked in the bubble (synctest deadlock detector). Plus sequences under the real scheduler (dial-sequences: a Dial that was refused with a complete 400 while its context was being cancelled, then a Dial against a silent peer that only cancel / context deadline / Dialer.Timeout can end: it returns and closes its connection; a 60 s watchdog decides 'never returned'). Plus the unforced race under the real scheduler (cancel after a PRNG-chosen spin), invariants only, outcome histogram in the evidence; the same race over real loopback TCP sockets with the library's default net.Dialer, observed at the peer (a failed Dial's connection sees its end, a successful Dial's connection delivers the server's greeting). distinct = (context kind, event@place, peer, timeout, outcome).",
 		Assumptions: []string{"virtual time: no wall-clock value decides anything", "when cancellation races with completion (after the last I/O operation) either outcome is accepted, only the invariants are checked"},
 		HangSeconds: 300,
 		Subs: []mon.Sub{
@@ -922,8 +1043,13 @@ func TestMonitor(t *testing.T) {
 				},
 			},
 			subRace(),
+			subRaceTCP(),
 		},
 		Finish: func(r *mon.Run) {
+			r.Extra("tcp_race_outcomes_success", raceTCP[0].Load())
+			r.Extra("tcp_race_outcomes_context_error", raceTCP[1].Load())
+			r.Extra("tcp_race_outcomes_other_error", raceTCP[2].Load())
+			r.Extra("tcp_race_failed_dials_whose_connection_the_peer_had_accepted_and_saw_closed", raceTCP[3].Load())
 			r.Extra("race_outcomes_success", raceOutcomes[0].Load())
 			r.Extra("race_outcomes_context_error", raceOutcomes[1].Load())
 			r.Extra("race_outcomes_other_error", raceOutcomes[2].Load())
